@@ -304,7 +304,13 @@ class ets_base<ets_key_per_instance>: public ets_base<ets_no_key> {
 #endif
 #else
     using tls_key_t = pthread_key_t;
-    void create_key() { pthread_key_create(&my_key, nullptr); }
+    void create_key() {
+        // The number of keys per process is limited. Without a key of its own the container would use the slot
+        // of whatever key the uninitialized member happens to name.
+        if (pthread_key_create(&my_key, nullptr) != 0) {
+            tbb::detail::throw_exception(exception_id::bad_alloc);
+        }
+    }
     void destroy_key() { pthread_key_delete(my_key); }
     void set_tls( void * value ) const { pthread_setspecific(my_key, value); }
     void* get_tls() const { return pthread_getspecific(my_key); }
